@@ -1,7 +1,7 @@
 /-
 Driver for C07.  One request per line, `k=v` fields separated by single spaces.
 
-  k=G m=<v1|v2c|v2|v31> op=<eq|ne|lt|le|gt|ge> l=<seq> r=<seq>     general comparison  l op r
+  k=G m=<v1|v2c|v2|v31> op=<eq|ne|lt|le|gt|ge> l=<seq> r=<seq> [z=<min>]   general comparison  l op r (z: implicit timezone)
   k=V m=… op=… l=<seq> r=<seq>                                      value comparison
   k=B m=… f=<boolean|not|if|blist> l=<seq>                          boolean(S) / not(S) / if (S) then 1 else 0 / token.boolean_value(list)
   k=L m=… f=<and|or> l=<seq> r=<seq>                                S1 and S2 / S1 or S2
@@ -165,10 +165,13 @@ def answer (line : String) : String :=
       match parseOp (field fs "op") with
       | none => "bad-op"
       | some op =>
+        -- z=<implicit timezone of the context in minutes>, absent or `_` = none
+        let zs := field fs "z"
+        let itz : Option Int := if zs == "" || zs == "_" then none else int? zs
         if k == "G" then
-          s!"model={showR (generalCmp m op l r)} spec={showAllowed (EPV.CmpSpec.generalAllowed m op l r)} trig={showTrig (EPV.CmpFind.trigGeneral m op l r)}"
+          s!"model={showR (generalCmpCtx itz m op l r)} spec={showAllowed (EPV.CmpSpec.generalAllowedCtx itz m op l r)} trig={showTrig (EPV.CmpFind.trigGeneral m op l r)}"
         else if k == "V" then
-          s!"model={showOR (valueCmp m op l r)} spec={showAllowed (EPV.CmpSpec.valueAllowed m op l r)} trig={showTrig (EPV.CmpFind.trigValue m op l r)}"
+          s!"model={showOR (valueCmpCtx itz m op l r)} spec={showAllowed (EPV.CmpSpec.valueAllowedCtx itz m op l r)} trig={showTrig (EPV.CmpFind.trigValue m op l r)}"
         else "bad-kind"
   | _, _ => "bad-line"
 
